@@ -326,6 +326,54 @@ pub fn run(ctx: &Ctx, replay: Option<&J>) -> i32 {
     }
     let ls = lists(!ctx.quick());
     par_for_ctx(ctx, ls.len(), |i| check_list(ctx, &ls[i]));
+    // the left operand written in different ways (a literal, a variable, the result of a built-in -
+    // in particular `range` with integer and non-integer bounds): the operator form, the built-in form
+    // and the form through a variable must agree whatever produced the list
+    {
+        let producers = [
+            "range(3)", "range(3.5)", "range(7 / 2)", "range(0.5)", "range(0.000000001)", "range(2.999999999)", "range(0)", "range(1, 4)", "range(1.5, 4.5)", "range(2, 2.5)", "range(len([1, 2, 3]) / 2)",
+            "[...[1, 2]]", "concat([1], [2])", "slice([1, 2, 3], 0, 2)", "[1, 2, 3] where (x => x > 1)", "reverse([1, 2])", "sort([2, 1])", "unique([1, 1, 2])", "keys({a: 1, b: 2})", "split(\"a,b\", \",\")",
+            "[...\"ab\"]", "zip([1], [2])", "chunk([1, 2, 3], 2)", "flatten([[1], [2]])", "values({a: 1, b: 2})", "[1, 2] via (x => x + 1)", "map([1, 2], x => x)", "tail([0, 1, 2])", "(range(2.5))", "[0, 1, 2]",
+        ];
+        let funcs = ["inc", "two", "opt", "rest", "idx_even", "pos", "isnum", "tostr", "wrap", "((x, i) => x * 10 + i)", "sh_r1o2", "psh_r0o0z", "len", "max", "nothing_bound"];
+        let mut rows: Vec<(String, String, Outcome, Outcome)> = vec![];
+        let mut sess = Session::new();
+        let _ = sess.run(&prelude());
+        for (pi, p) in producers.iter().enumerate() {
+            let _ = sess.run(&format!("held{} = {}", pi, p));
+            for f in funcs {
+                for (a, b) in [
+                    (format!("{} via {}", p, f), format!("map({}, {})", p, f)),
+                    (format!("{} via {}", p, f), format!("held{} via {}", pi, f)),
+                    (format!("map({}, {})", p, f), format!("map(held{}, {})", pi, f)),
+                    (format!("{} where {}", p, f), format!("filter({}, {})", p, f)),
+                    (format!("{} where {}", p, f), format!("held{} where {}", pi, f)),
+                    (format!("{} into {}", p, f), format!("{}({})", f, p)),
+                    (format!("{} into {}", p, f), format!("held{} into {}", pi, f)),
+                    (format!("every({}, {})", p, f), format!("every(held{}, {})", pi, f)),
+                    (format!("reduce({}, (acc, x, i) => [acc, x, i], 0)", p), format!("reduce(held{}, (acc, x, i) => [acc, x, i], 0)", pi)),
+                ] {
+                    let (oa, ob) = (sess.run(&a), sess.run(&b));
+                    rows.push((a, b, oa, ob));
+                }
+            }
+        }
+        for (a, b, oa, ob) in &rows {
+            ctx.count(2);
+            ctx.nontrivial(a);
+            ctx.outcome(if oa.is_ok() { "producer-ok" } else { "producer-fail" });
+            if !same(oa, ob) {
+                ctx.violation(Violation {
+                    kind: "producer-form".into(),
+                    class: "left-operand-provenance".into(),
+                    input: format!("{}  <=>  {}", a, b),
+                    expected: ob.cmp_key(),
+                    observed: oa.cmp_key(),
+                    case: json!({"a": a, "b": b, "defs": producers.iter().enumerate().map(|(i, p)| format!("held{} = {}", i, p)).collect::<Vec<_>>().join("\n")}),
+                });
+            }
+        }
+    }
     // `x into f` against `f(x)` when the function recurses through the form itself, at depths up to
     // just below the call-depth limit: both forms must agree on the value or on failing
     {
